@@ -336,6 +336,11 @@ def run(ck):
     r10_worker_error_weighed(ck, par)
     c04.r3_lifo(ck, rule="C06-R9")
     c04.r3b_pop_after_rollback(ck, rule="C06-R9")
+    # the undo re-inserts the hunk's own lines; that restores the file only because a hunk is placed solely where the file's lines
+    # equal them byte for byte (the comparison of the trial, C02-R4) - run-ahead patches are undone exactly only if that holds
+    from . import c02 as _c02
+    from .c18 import ck_alias as _alias
+    _c02.r4(_alias(ck, "C06-R11"))
 
     # ---- R7 conflicting effects in one parallel region ---------------------------------------------------------------------
     def region_label(cl):
